@@ -56,10 +56,10 @@ func SpecLookup(s string) Type {
 //@ globalinv [kw.sound] forallKeys(Keywords, func(k string) bool { return SpecLookup(k) != IDENT && Keywords[k] == SpecLookup(k) })
 //@ globalinv [kw.complete] has(Keywords, "function") && has(Keywords, "let") && has(Keywords, "if") && has(Keywords, "else") && has(Keywords, "while") && has(Keywords, "for") && has(Keywords, "return") && has(Keywords, "true") && has(Keywords, "false") && has(Keywords, "null")
 
-//@ func init
+//@ func init()
 //@   props C10
 //@   modifies *
 
-//@ func LookupIdent
+//@ func LookupIdent(ident)
 //@   props C10
 //@   ensures [kw] result == SpecLookup(ident)
